@@ -219,9 +219,17 @@ Definition mismatches_C11 (cs : list case_C11) : list N := indices_where mismatc
 Definition violations_C11 (cs : list case_C11) : list N := indices_where violation_C11 cs.
 
 (* known-finding classifier over the INPUT (scenario + probe); idx*100 + tag *)
-(* no open finding at present (Project.clone leaving a partial copy was repaired in /repo: 3bc075e);
-   the classifier stays so that a future finding can be added without touching the driver *)
-Definition known_tag_C11 (c : case_C11) : N := 0%N.
+(* tag 3 (tags 1 and 2 are retired: repaired in /repo): Project.clone under a DOUBLE fault — a failure
+   while copying AND a failure of a clean-up unlink / rmdir below the destination (shutil.rmtree with
+   ignore_errors) — leaves a partial destination that may validate *)
+Definition known_tag_C11 (c : case_C11) : N :=
+  match k_op c, k_probe c with
+  | KClone ws i dws, PFault2 s1 _ _ s2 _ _ (Some _) _ =>
+      let d := dst_dir (frepr_of c) (k_op c) (k_pre c) in
+      let cleanup (s : csig) := (ckind_eqb (sg_kind s) SgUnlink || ckind_eqb (sg_kind s) SgRmdir) && under d (sg_p s) in
+      if negb (cleanup s1) && (under d (sg_p s1) || under (ws ++ [i]) (sg_p s1)) && cleanup s2 then 3 else 0
+  | _, _ => 0
+  end%N.
 
 Fixpoint known_aux_C11 (cs : list case_C11) (i : N) : list N :=
   match cs with
